@@ -112,9 +112,13 @@ theorem endBlock_total (s : EState) (h : Int) (hinv : EInvP s) : ∃ s', endBloc
     multipliers present and in [0,10]), so the envelope holds for the state with the new periods. -/
 theorem accepted_AddRewardPeriod_safe (m : MsgAddRewardPeriod) (c : Ctx) (sv : StVals) (s : EState)
     (hacc : acceptsAddRewardPeriod m c sv = true) (hwt : ∀ q ∈ m.periods, RewWT q.p) (henv : EInvP s) :
-    EInvP (applyAddRewardPeriod m s) := by
+    EInvP (applyAddRewardPeriod m c s) := by
   obtain ⟨a, b, _, d, e⟩ := henv
-  refine ⟨a, b, ?_, d, e⟩
+  refine ⟨?_, b, ?_, d, e⟩
+  · show (if _ then s.accu else 0) < 2 ^ 254
+    split_ifs
+    · exact a
+    · norm_num
   intro p hp
   obtain ⟨q, hq, rfl⟩ := List.mem_map.1 hp
   exact AddRewardPeriod_periods_ok m c sv hacc hwt q hq
